@@ -96,5 +96,9 @@ Section Scan.
     scan_loop (length file + 1) 0 [] 0 false file.
 End Scan.
 
+(* the Go variable packmarker = "\n####ECALSRC####\n" (the harness reads the actual value from
+   the implementation on every run; Run/RunC20.v compares) *)
+Definition ECAL_MARKER : bytes := [10; 35; 35; 35; 35; 69; 67; 65; 76; 83; 82; 67; 35; 35; 35; 35; 10].
+
 (* every Read fills the slice as far as the stream allows (a regular file) *)
 Definition full_reads : nat -> nat := fun _ => 0%nat.
